@@ -161,3 +161,78 @@ package checkers
 
 // the collection every checker registers into is created by a package-level initializer and never reassigned
 //@ readonly collection @non-nil value != nil
+
+// ---- C18: user rule files - failure policy and group filter
+
+// the three failure-class predicates (function values stored in the handler's table)
+//@ func newErrorHandler$1
+//@   prop C18
+//@   pure
+//@   ensures @dsl-class result == !isImportErr(err)
+//@ func newErrorHandler$2
+//@   prop C18
+//@   pure
+//@   ensures @import-class result == isImportErr(err)
+//@ func newErrorHandler$3
+//@   prop C18
+//@   pure
+//@   ensures @all-class result
+// calling one of those function values yields what its contract says (links the table to the predicates)
+//@ axiom @dyn-dsl forall err iface :: dyn(fnid("newErrorHandler$1"), err) == !isImportErr(err)
+//@ axiom @dyn-import forall err iface :: dyn(fnid("newErrorHandler$2"), err) == isImportErr(err)
+//@ axiom @dyn-all forall err iface :: dyn(fnid("newErrorHandler$3"), err)
+
+//@ spec predOf(k string) int = ite(k == "dsl", fnid("newErrorHandler$1"), ite(k == "import", fnid("newErrorHandler$2"), fnid("newErrorHandler$3")))
+//@ spec wfHandler(h parseErrorHandler) bool = forall k string :: has(h.failureConditions, k) ==> ((k == "dsl" || k == "import" || k == "all") && h.failureConditions[k] == predOf(k))
+//@ spec failsOn(h parseErrorHandler, err error) bool = has(h.failureConditions, "all") || (has(h.failureConditions, "import") && isImportErr(err)) || (has(h.failureConditions, "dsl") && !isImportErr(err))
+
+//@ func (parseErrorHandler).failOnParseError
+//@   prop C18
+//@   dyncalls_pure the table holds the three predicates above
+//@   requires @table-wellformed wfHandler(e)
+//@   assigns nothing
+//@   ensures @fatal-iff-class-listed result <==> failsOn(e, parseError)
+//@   loop 1 invariant @none-of-the-seen-classes-applies forall k string :: seen(k) ==> !dyn(e.failureConditions[k], parseError)
+
+//@ func newErrorHandler
+//@   prop C18 C19
+//@   nosafety
+//@   ensures @handler-or-error (result1 == nil) <==> (result0 != nil)
+//@   ensures @table-wellformed result1 == nil ==> wfHandler(deref(result0))
+//@   ensures @listed-classes result1 == nil ==> (forall x string :: has(result0.failureConditions, x) <==> (x != "" && (exists k int :: 0 <= k && k < splitLen(failOnErrorFlag, ",") && splitAt(failOnErrorFlag, ",", k) == x)))
+//@   ensures @unknown-class-is-an-error (exists k int :: 0 <= k && k < splitLen(failOnErrorFlag, ",") && splitAt(failOnErrorFlag, ",", k) != "" && splitAt(failOnErrorFlag, ",", k) != "dsl" && splitAt(failOnErrorFlag, ",", k) != "import" && splitAt(failOnErrorFlag, ",", k) != "all") ==> result1 != nil
+//@   loop 1 invariant @table-so-far fresh(h.failureConditions) && wfHandler(h) && (forall x string :: has(h.failureConditions, x) <==> (x != "" && (exists k int :: 0 <= k && k < $i && splitAt(failOnErrorFlag, ",", k) == x)))
+//@   loop 1 invariant @predicate-table-unchanged failOnErrorPredicates != h.failureConditions && (forall x string :: has(failOnErrorPredicates, x) <==> (x == "dsl" || x == "import" || x == "all")) && (forall x string :: has(failOnErrorPredicates, x) ==> failOnErrorPredicates[x] == predOf(x))
+//@   loop 1 invariant @no-unknown-so-far forall k int :: (0 <= k && k < $i) ==> (splitAt(failOnErrorFlag, ",", k) == "" || splitAt(failOnErrorFlag, ",", k) == "dsl" || splitAt(failOnErrorFlag, ",", k) == "import" || splitAt(failOnErrorFlag, ",", k) == "all")
+
+// group filter of the dynamic-rules checker: same algebra as checker selection
+//@ func newRuleguardChecker$1
+//@   prop C18
+//@   pure
+//@   requires g != nil
+//@   ensures @enabled-by-tag result <==> (exists j int :: 0 <= j && j < len(g.DocTags) && enabledTags[g.DocTags[j]])
+//@   loop 1 invariant @none-so-far forall j int :: (0 <= j && j < $i) ==> !enabledTags[g.DocTags[j]]
+
+//@ func newRuleguardChecker$2
+//@   prop C18
+//@   pure
+//@   requires g != nil
+//@   requires @tags-non-empty forall j int :: (0 <= j && j < len(g.DocTags)) ==> g.DocTags[j] != ""
+//@   ensures @disabled-by-tag (result != "") <==> (exists j int :: 0 <= j && j < len(g.DocTags) && disabledTags[g.DocTags[j]])
+//@   loop 1 invariant @none-so-far forall j int :: (0 <= j && j < $i) ==> !disabledTags[g.DocTags[j]]
+
+//@ func newRuleguardChecker$3
+//@   prop C18
+//@   nosafety
+//@   dyncalls_pure inEnabledTags / inDisabledTags are the two closures above, called through captured variables
+//@   requires g != nil
+//@   ensures @group-runs-iff-enabled-and-not-disabled result <==> ((flagEnable == "<all>" || enabledGroups[g.Name] || dyn(inEnabledTags, g)) && !disabledGroups[g.Name] && dynStr(inDisabledTags, g) == "")
+
+//@ func newRuleguardChecker
+//@   prop C18 C19
+//@   nosafety parameter presence/types are validated at registration
+//@   ensures @checker-or-error (result1 == nil) <==> (result0 != nil)
+//@   ensures @no-rules-no-engine old(unbox(info.Params["rules"].Value, "string")) == "" ==> (result1 == nil && result0.engine == nil)
+//@   call newErrorHandler requires @legacy-flag-means-all arg0 == ite(unbox(info.Params["failOn"].Value, "string") == "" && unbox(info.Params["failOnError"].Value, "bool"), "all", unbox(info.Params["failOn"].Value, "string"))
+//@   loop 1 body @disable-entry-recorded ite(hasPrefix(trimSpace(splitAt(unbox(info.Params["disable"].Value, "string"), ",", $i)), "#"), disabledTags[substr(trimSpace(splitAt(unbox(info.Params["disable"].Value, "string"), ",", $i)), 1, len(trimSpace(splitAt(unbox(info.Params["disable"].Value, "string"), ",", $i))))], disabledGroups[trimSpace(splitAt(unbox(info.Params["disable"].Value, "string"), ",", $i))])
+//@   loop 3 body @pattern-without-match-is-fatal len(filenames) != 0 || err != nil
